@@ -473,3 +473,46 @@ Example shared_flush_sched_real_protocol :
   let s1 := run cfg3 (init 3) (sf_pre ++ EvCall 2 CWait :: sf_mid) in
   nth_error (cl s1) 2%nat = Some CWGuard /\ executed s1 = [[1]; [2]].
 Proof. vm_compute. split; reflexivity. Qed.
+
+(* ------------------------------------------------------------------ *)
+(* Seeded change C11-10: Wait's "idle shortcut" - after its Flush and the wait for inflight = 0 it
+   reads guarded under the lock and, when no background flusher is alive, returns without taking the
+   barrier / waitGroup.Wait().  A batch in the hands of ANOTHER client's Flush is covered by the
+   waitGroup only. *)
+Definition shortcut_cstep (cfg : config) (s : state) (c : nat) : option state :=
+  match nth_error (cl s) c with
+  | Some CWSpin =>
+    if inflight s =? 0
+    then Some (set_cl s (upd (cl s) c (if guarded s then CWGuard else CIdle)))
+    else None
+  | _ => cstep cfg s c
+  end.
+Definition shortcut_run (cfg : config) (s : state) (sched : list ev) : state :=
+  fold_left (fun s e => match (match e with EvC c => shortcut_cstep cfg s c | _ => step cfg s e end) with
+                        | Some s' => s' | None => s end) sched s.
+
+(* Add 1 starts the flusher; client 1's Flush removes [1] and is about to run the callback; more than
+   idleRound intervals later a tick finds nothing to flush: the flusher quits (guarded = false), stops
+   its ticker, runs its deferred Flush on nothing and is gone *)
+Definition shortcut_pre : list ev :=
+  [EvCall 0 (CAdd 1 1); EvC 0; EvB 0 false; EvCall 1 CFlush; EvC 1; EvC 1;
+   EvClock 10001; EvTick; EvB 0 true; EvB 0 false; EvB 0 false; EvB 0 false; EvB 0 false;
+   EvB 0 false; EvB 0 false; EvB 0 false; EvB 0 false; EvB 0 false; EvB 0 false].
+Definition shortcut_mid : list ev := [EvC 2; EvC 2; EvC 2; EvC 2; EvC 2; EvC 2; EvC 2].
+
+Theorem wait_idle_shortcut_refuted :
+  let s0 := shortcut_run cfg3 (init 3) shortcut_pre in
+  let s1 := shortcut_run cfg3 s0 (EvCall 2 CWait :: shortcut_mid) in
+  guarded s0 = false /\ fl s0 = [BDead] /\ nth_error (cl s0) 1%nat = Some (CFl (FExec [1]) false) /\
+  nth_error (cl s0) 2%nat = Some CIdle /\ nth_error (cl s0) 0%nat = Some CIdle /\ accepted s0 = [1] /\
+  nth_error (cl s1) 2%nat = Some CIdle /\ done_tasks s1 = [].
+Proof. vm_compute. repeat split; reflexivity. Qed.
+
+(* the real protocol in that phase ("flusher gone, foreign Flush executing"): the Wait holds the barrier
+   and waits for the waitGroup; [Props.wait_covers_prior_adds] has no hypothesis on the flusher's phase *)
+Example wait_idle_sched_real_protocol :
+  let s1 := run cfg3 (init 3) (shortcut_pre ++ EvCall 2 CWait :: shortcut_mid) in
+  guarded s1 = false /\ fl s1 = [BDead] /\ nth_error (cl s1) 2%nat = Some CWWait /\ wg s1 = 1 /\
+  let s2 := run cfg3 s1 [EvC 1; EvC 1; EvC 2] in
+  nth_error (cl s2) 2%nat = Some CIdle /\ executed s2 = [[1]].
+Proof. vm_compute. repeat split; reflexivity. Qed.
